@@ -83,7 +83,18 @@ def corner(g: gen.Gen):
     from optyx.core.vectors import VectorPowerSum, LinearCombination, DotProduct, VectorExpression
     from optyx.core.matrices import quadratic_form
     x = g.view()
-    k = r.randrange(9)
+    k = r.randrange(11)
+    if k >= 9:
+        # a hand-assembled vector whose elements have DIFFERENT degrees / kinds, in every order: the degree of the node is decided by
+        # the worst element wherever it stands
+        vs_ = g.pool.all_scalar_vars()
+        elems = [r.choice(vs_) * 2 + 1, r.choice(vs_) ** 2, r.choice(vs_) ** 3, gen.FN["sin"](r.choice(vs_)), r.choice(vs_) ** 0.5,
+                 r.choice(vs_) * r.choice(vs_), Constant(2.0) * 1, r.choice(vs_) ** -1]
+        chosen = r.sample(elems, r.randint(2, 4))
+        w = VectorExpression(chosen)
+        y_ = VectorExpression([r.choice(vs_) for _ in chosen])
+        return r.choice([lambda: g.coeffs(w.size) @ w, lambda: w.dot(y_), lambda: y_.dot(w), lambda: w.sum() + g.leaf(),
+                         lambda: quadratic_form(w, g.matrix(w.size))])()
     if k == 0:
         return VectorPowerSum(x, r.choice([0.5, -1, -2, 1.5, 0, 1, 2, 3, 2.5]))
     if k == 1:
